@@ -24,6 +24,10 @@ Flags: decimal ValueFlags word (1 = stringNonVerbatim, 2 = stringNonCanonical).
   wire valid u d h             → "ok" | "E class off"         Value.IsValid framing: ws value ws, u = AllowInvalidUTF8, d = AllowDuplicateNames
   wire stream u d h            → "count class off"            ReadValue loop: values read, then ioeof at a boundary or the first error
   wire value u d depth h       → "n class"                    decoderState.consumeValue at the given depth on h (h non-empty)
+  wire all h                   → the replies of  ws | lit | sstr | str 0 | str 1 | snum | num | unq |
+                                 valid 0 0 | valid 0 1 | valid 1 0 | valid 1 1 | stream 0 0 | stream 0 1 | stream 1 0 | stream 1 1
+                                 joined by " | " (one line per input for the bounded-exhaustive sweeps)
+  wire vs h                    → the eight valid/stream replies of `all` only
 -/
 import JsonV.Oracle.Util
 import JsonV.Model.Validate
@@ -38,64 +42,73 @@ def errStr : Err → String
 
 def b01 (s : String) : Option Bool := if s == "1" then some true else if s == "0" then some false else none
 
-def handle (op : String) (args : List String) : String :=
+/-- every op takes the input bytes as its LAST argument; `args` are the arguments before it. -/
+def handleB (op : String) (args : List String) (b : Bytes) : String :=
   match op, args with
-  | "ws", [h] => match bytesOfHex h with
-    | some b => toString (consumeWhitespace b) | none => badArgs
-  | "lit", [h] => match bytesOfHex h with
-    | some b =>
-      let l (lit : Bytes) := let (n, e) := consumeLiteral b lit; s!"{n} {errStr e}"
-      s!"{consumeNull b} {consumeFalse b} {consumeTrue b} {l litNull} {l litFalse} {l litTrue}"
-    | none => badArgs
-  | "sstr", [h] => match bytesOfHex h with
-    | some b => toString (consumeSimpleString b) | none => badArgs
-  | "str", [v, h] => match b01 v, bytesOfHex h with
-    | some v, some b => let (n, f, e) := consumeString b v; s!"{n} {f.toNat} {errStr e}"
+  | "ws", [] => toString (consumeWhitespace b)
+  | "lit", [] =>
+    let l (lit : Bytes) := let (n, e) := consumeLiteral b lit; s!"{n} {errStr e}"
+    s!"{consumeNull b} {consumeFalse b} {consumeTrue b} {l litNull} {l litFalse} {l litTrue}"
+  | "sstr", [] => toString (consumeSimpleString b)
+  | "str", [v] => match b01 v with
+    | some v => let (n, f, e) := consumeString b v; s!"{n} {f.toNat} {errStr e}"
+    | _ => badArgs
+  | "strR", [v, off] => match b01 v, off.toNat? with
+    | some v, some off => let (n, f, e) := consumeStringResumable b off v; s!"{n} {f.toNat} {errStr e}"
     | _, _ => badArgs
-  | "strR", [v, off, h] => match b01 v, off.toNat?, bytesOfHex h with
-    | some v, some off, some b => let (n, f, e) := consumeStringResumable b off v; s!"{n} {f.toNat} {errStr e}"
-    | _, _, _ => badArgs
-  | "snum", [h] => match bytesOfHex h with
-    | some b => toString (consumeSimpleNumber b) | none => badArgs
-  | "num", [h] => match bytesOfHex h with
-    | some b => let (n, e) := consumeNumber b; s!"{n} {errStr e}"
-    | none => badArgs
-  | "numR", [off, st, h] => match off.toNat?, st.toNat?, bytesOfHex h with
-    | some off, some st, some b => let (n, st', e) := consumeNumberResumable b off st; s!"{n} {st'} {errStr e}"
-    | _, _, _ => badArgs
-  | "unq", [h] => match bytesOfHex h with
-    | some b => let (o, e) := unquote b; s!"{hexOfBytes o} {errStr e}"
-    | none => badArgs
-  | "hex4", [h] => match bytesOfHex h with
-    | some b => match parseHexUint16 b with
-      | some v => s!"{v} 1"
-      | none => "0 0"
-    | none => badArgs
-  | "esc16", [l, h] => match b01 l, bytesOfHex h with
-    | some l, some b => boolStr (hasEscapedUTF16Prefix b l)
+  | "snum", [] => toString (consumeSimpleNumber b)
+  | "num", [] => let (n, e) := consumeNumber b; s!"{n} {errStr e}"
+  | "numR", [off, st] => match off.toNat?, st.toNat? with
+    | some off, some st => let (n, st', e) := consumeNumberResumable b off st; s!"{n} {st'} {errStr e}"
     | _, _ => badArgs
-  | "trimws", [h] => match bytesOfHex h with
-    | some b => hexOfBytes (trimSuffixWhitespace b) | none => badArgs
-  | "trimstr", [h] => match bytesOfHex h with
-    | some b => hexOfBytes (trimSuffixString b) | none => badArgs
-  | "trimb", [c, h] => match c.toNat?, bytesOfHex h with
-    | some c, some b => hexOfBytes (trimSuffixByte b (UInt8.ofNat c))
-    | _, _ => badArgs
-  | "valid", [u, d, h] => match b01 u, b01 d, bytesOfHex h with
-    | some u, some d, some b =>
+  | "unq", [] => let (o, e) := unquote b; s!"{hexOfBytes o} {errStr e}"
+  | "hex4", [] => match parseHexUint16 b with
+    | some v => s!"{v} 1"
+    | none => "0 0"
+  | "esc16", [l] => match b01 l with
+    | some l => boolStr (hasEscapedUTF16Prefix b l)
+    | _ => badArgs
+  | "trimws", [] => hexOfBytes (trimSuffixWhitespace b)
+  | "trimstr", [] => hexOfBytes (trimSuffixString b)
+  | "trimb", [c] => match c.toNat? with
+    | some c => hexOfBytes (trimSuffixByte b (UInt8.ofNat c))
+    | _ => badArgs
+  | "valid", [u, d] => match b01 u, b01 d with
+    | some u, some d =>
       let (n, e) := validText ⟨u, d⟩ b
       if e == .ok then "ok" else s!"E {errStr e} {n}"
-    | _, _, _ => badArgs
-  | "stream", [u, d, h] => match b01 u, b01 d, bytesOfHex h with
-    | some u, some d, some b =>
+    | _, _ => badArgs
+  | "stream", [u, d] => match b01 u, b01 d with
+    | some u, some d =>
       let (cnt, off, e) := stream ⟨u, d⟩ b
       s!"{cnt} {errStr e} {off}"
-    | _, _, _ => badArgs
-  | "value", [u, d, depth, h] => match b01 u, b01 d, depth.toNat?, bytesOfHex h with
-    | some u, some d, some depth, some b =>
+    | _, _ => badArgs
+  | "value", [u, d, depth] => match b01 u, b01 d, depth.toNat? with
+    | some u, some d, some depth =>
       let (n, e) := consumeValue ⟨u, d⟩ (fuelFor b) depth b
       s!"{n} {errStr e}"
-    | _, _, _, _ => badArgs
+    | _, _, _ => badArgs
   | _, _ => badArgs
+
+def allOps : List (String × List String) :=
+  [("ws", []), ("lit", []), ("sstr", []), ("str", ["0"]), ("str", ["1"]), ("snum", []), ("num", []), ("unq", []),
+   ("valid", ["0", "0"]), ("valid", ["0", "1"]), ("valid", ["1", "0"]), ("valid", ["1", "1"]),
+   ("stream", ["0", "0"]), ("stream", ["0", "1"]), ("stream", ["1", "0"]), ("stream", ["1", "1"])]
+
+/-- `vs`: the eight validator ops only (for very large inputs). -/
+def vsOps : List (String × List String) := allOps.drop 8
+
+def handle (op : String) (args : List String) : String :=
+  match args.getLast? with
+  | none => badArgs
+  | some h =>
+    match bytesOfHex h with
+    | none => badArgs
+    | some b =>
+      let init := args.dropLast
+      match op, init with
+      | "all", [] => " | ".intercalate (allOps.map (fun (o, a) => handleB o a b))
+      | "vs", [] => " | ".intercalate (vsOps.map (fun (o, a) => handleB o a b))
+      | _, _ => handleB op init b
 
 end JsonV.Oracle.Wire
